@@ -9,6 +9,7 @@ import sys
 
 HERE = os.path.dirname(os.path.dirname(os.path.abspath(__file__)))
 ORIGIN = {
+    8: "independent sub-agent given only the property text and its own worktree of /repo (round 8: multi-step sequences and state carried in one process, a call after a failed call, combinations of two or three options, faults at a particular point, two cooperating edits that each look harmless alone)",
     3: "independent sub-agent given only the property text and its own worktree of /repo (round 3: outputs and inputs outside the "
        "usual generators' reach: marker values as data, shared objects, long lists, names that collide with option fields)",
     4: "independent sub-agent given only the property text and its own worktree of /repo (round 4: order of operations, shared helpers, numeric / length boundaries, text that is syntax of another layer, last items, swallowed exceptions)",
